@@ -37,7 +37,8 @@ func (runInfo *runInfoStruct) funcExpr() {
 			return nilValue, reflect.ValueOf(newError(funcExpr, runInfo.err))
 		}
 
-		return runInfo.rv, errorNilValue
+		// the result is a value: also an implicit result (the body's last expression) read from a slot is copied, as `return` does
+		return unalias(runInfo.rv), errorNilValue
 	}
 
 	if !funcExpr.VarArg {
